@@ -486,6 +486,67 @@ def run_containers(st):
     return out
 
 
+METHOD_NAME_PRESENCE = ["present", "missing", "none"]
+
+
+def _method_bag(kind, presence, pathkey):
+    """(container of kind `kind`, expected JSON) for one Bag whose fields are named like dict methods"""
+    sm = S.SCHEMAS["M"]
+    fields, expected = {}, {}
+    for j, (fn, f) in enumerate(S.fields_of(sm, "Bag").items()):
+        t = S.parse_type(f["type"])
+        named = S.named_of(t)
+        pk = "%s/%s" % (pathkey, fn)
+        # `plain` is always present; the method-named fields follow the presence mode (rotating so
+        # that every field meets every mode in the "mixed" mode)
+        mode = presence if presence != "mixed" else METHOD_NAME_PRESENCE[j % 3]
+        if fn == "plain":
+            mode = "present"
+        if mode == "present":
+            py = W.py_value(sm, named, pk)
+            js = W.json_value(sm, named, pk)
+            if t[0] == "list":
+                py, js = [py], [js]
+            fields[fn] = py
+            expected[fn] = js
+        else:
+            if mode == "none":
+                fields[fn] = None
+            expected[fn] = None
+    return W._wrap_container(kind, "Bag", fields), expected
+
+
+def run_method_names(st):
+    """fields named like methods of the parent container (items, keys, values, get, copy, update, pop):
+    present -> the value, missing or None -> null, never an exception; every container kind"""
+    from collections import OrderedDict
+
+    out = []
+    F = O.F
+    names = list(S.fields_of(S.SCHEMAS["M"], "Bag"))
+    case = {"doc": O.mkdoc(O.mkop([F("bag", [F(n) for n in names]), F("bags", [F(n) for n in reversed(names)])])), "vars": {}, "devs": ["method-names"]}
+    text, locs, ast = _parsed("M", case)
+    from py_gql.execution import BlockingExecutor, execute
+
+    for kind in W.CONTAINER_KINDS:
+        for presence in METHOD_NAME_PRESENCE + ["mixed"]:
+            bag, exp_bag = _method_bag(kind, presence, "bag")
+            item, exp_item = _method_bag(kind, presence, "bags/0")
+            root = {"bag": bag, "bags": [item]}
+            ref = R.Result()
+            ref.data = OrderedDict([("bag", OrderedDict((n, exp_bag[n]) for n in names)), ("bags", [OrderedDict((n, exp_item[n]) for n in reversed(names))])])
+            st.n("evaluations")
+            st.nt(("method-names", kind, presence))
+            try:
+                r = execute(plain_schema("M"), ast, initial_value=root, executor_cls=BlockingExecutor)
+                lib = ("ok", json.dumps(r.data), [(tuple(e.path) if e.path is not None else None, ()) for e in r.errors], r.data)
+            except Exception as e:  # noqa
+                lib = ("raise", e)
+            for cls, detail in compare(ref, lib, "default-resolver:" + kind, "method-names"):
+                out.append((cls + "/method-names/container=%s/%s" % (kind, presence), {"k": "method-names", "kind": kind, "presence": presence}, detail + " :: " + text))
+    return out
+
+
 SHARED_ERROR_WORLDS = [
     {"i": "errS", "n": "errS"},
     {"i": "errS", "x": "errS"},
@@ -701,7 +762,7 @@ def _check_case(case, st):
             out.extend(run_document(name, c, st, bounds, opnames))
         return out
     if k == "containers":
-        return run_containers(st)
+        return run_containers(st) + run_method_names(st)
     if k == "shared-error":
         return run_shared_error(st)
     if k == "operation-name":
@@ -783,6 +844,11 @@ def cases(tier):  # noqa: F811  (every case carries its tier: check_case needs t
 
 
 def replay(witness):
+    if witness.get("k") == "method-names":
+        from mc.runner import Stats
+
+        want = "/method-names/container=%s/%s" % (witness["kind"], witness["presence"])
+        return [(cls, d) for cls, _w, d in run_method_names(Stats()) if cls.endswith(want)]
     if witness.get("k") == "history":
         return run_history(witness["h"], None)
     return replay_document(witness)
